@@ -11,9 +11,15 @@ PROPS["C09"] = dict(
                "the domain (2^200 contexts x trace states, all byte strings) is far beyond enumeration, the oracle is "
                "cheap and exact, and the defects of such code are single-character grammar/encoding slips that "
                "boundary-biased generation and coverage-guided mutation reach quickly.",
-    technique="round trip (Inject->Extract, Extract->Inject) + reference encoder + differential three-valued reference "
-              "parser with a harness TextMapCarrier; rapidcheck and libFuzzer",
-    rule="Cases are choice streams decoded into span contexts / a valid header plus an edit script / raw header bytes.",
+    technique="round trip (Inject->Extract, Extract->Inject; into fresh carriers and into carriers that already hold the "
+              "headers of an earlier injection by the same propagator) + reference encoder + differential three-valued "
+              "reference parser + an independent reading of every tracestate header the W3C grammar fixes beyond doubt "
+              "(OWS around members, empty members), with a harness TextMapCarrier; the public FromHex helpers called "
+              "directly; rapidcheck and libFuzzer",
+    rule="Cases are choice streams decoded into span contexts (plus the shape of the carrier: fresh or reused after an "
+         "earlier injection with an empty / foreign-key / same-key / full trace state) / a valid header plus an edit "
+         "script and a tracestate (exact, OWS-padded with empty members, over the limit, garbage, raw) / raw header "
+         "bytes / helper calls.",
     assumptions=[
         "a header that is well-formed apart from surrounding SP/HTAB (HTTP optional whitespace) must be extracted "
         "(http_trace_context.h documents the trimming); other surrounding C-locale blanks, upper-case hex digits and "
@@ -21,8 +27,24 @@ PROPS["C09"] = dict(
         "ids and flags must still be exactly the encoded ones)",
         "'returns the caller's context unchanged' is decided by Context::operator== (same list head) plus identity "
         "of the stored span object",
-        "the tracestate grammar itself is C14's subject: here a strictly valid list must survive verbatim and in "
-        "order, any other tracestate bytes must give what TraceState::FromHeader gives and be well-formed",
+        "the tracestate grammar itself is C14's subject: here a header that the W3C level-1 grammar reads beyond doubt "
+        "(strictly valid members, optionally surrounded by SP/HTAB, empty members in between; no repeated key; members "
+        "plus empty members <= 32) must come back as exactly its members in order; any other tracestate bytes must give "
+        "what TraceState::FromHeader gives and be well-formed",
+        "'injecting ... and extracting those headers' includes a carrier that already holds the headers of an earlier "
+        "injection by the same propagator (a reused header map, as C16 does for B3/Jaeger): the context injected LAST "
+        "must come back. For an empty trace state on such a carrier the propagator may write no tracestate or overwrite "
+        "it with a member-less list (a TextMapCarrier has no erase; W3C: empty tracestate headers MUST be accepted); on a "
+        "fresh carrier it must write none. Headers put there by anything but this propagator are not generated",
+        "finding C09-stale-tracestate (reused carrier whose earlier injection left a tracestate, new trace state empty: the "
+        "old tracestate survived and was extracted with the new ids) is fixed in /repo (70415bd); the shape is generated",
+        "TraceIdFromHex / SpanIdFromHex / TraceFlagsFromHex are called directly with hex digits only: every caller in the "
+        "repository validates with IsValidHex first, so non-hex bytes are outside their contract (HexToBinary would shift "
+        "HexToInt's -1; not reachable through Extract). Over-long input must give the invalid (all-zero) value or a "
+        "truncation of the input, never bytes that are not in the input",
+        "the reference blank set is isspace() of the C locale (checked at run time: LC_CTYPE must be C/POSIX); passing "
+        "header bytes >= 0x80 to isspace as plain char (StringUtil::Trim) is defined by glibc and therefore not observable "
+        "here - a portability remark, not decided by this check",
         SC_NOTE,
     ],
     runs=[
